@@ -8,6 +8,7 @@ pub mod c08;
 pub mod c09;
 pub mod c10;
 pub mod c11;
+pub mod c12;
 
 use engine::Space;
 
@@ -23,6 +24,7 @@ pub fn build(id: &str, tier: &str, _seed: u64) -> Option<Box<dyn Space + Sync + 
         "C09" => Box::new(c09::C09::new(tier)),
         "C10" => Box::new(c10::C10::new(tier)),
         "C11" => Box::new(c11::C11::new(tier)),
+        "C12" => Box::new(c12::C12::new(tier)),
         _ => return None,
     })
 }
